@@ -550,6 +550,7 @@ func Run(c *engine.Ctx) {
 		func(a, b proto.Message) bool { return a.(*sbom.Edge).Equal(b.(*sbom.Edge)) }, nil)
 	family(c, "list", listValues(),
 		func(a, b proto.Message) bool { return a.(*sbom.NodeList).Equal(b.(*sbom.NodeList)) }, nil)
+	deepNesting(c)
 	// nil argument
 	c.Group("nil")
 	c.Case(func() any { return "Equal(nil)" }, func(t *engine.T) *engine.Violation {
@@ -558,4 +559,57 @@ func Run(c *engine.Ctx) {
 		}
 		return nil
 	})
+}
+
+// deepNesting: a node (and a list holding it) whose supplier's contacts nest 1..130 levels; a change of one person at
+// any level makes the values unequal (both directions, checksums differ), an untouched clone stays equal.
+func deepNesting(c *engine.Ctx) {
+	c.Group("deep-nesting")
+	depths := gen.DepthLadder(130)
+	c.Bound("deep-nesting", fmt.Sprintf("supplier contact chains of depth %v: a clone is equal; an edit (name, e-mail, a removed contact) of the person at every level makes node and list unequal in both directions with different checksums", depths))
+	for _, d := range depths {
+		d := d
+		c.Case(func() any { return map[string]any{"depth": d} }, func(t *engine.T) *engine.Violation {
+			mk := func() *sbom.Node {
+				return &sbom.Node{Id: "a", Name: "n", Suppliers: []*sbom.Person{gen.ContactChain(d)}}
+			}
+			ls := func(n *sbom.Node) *sbom.NodeList {
+				return &sbom.NodeList{Nodes: []*sbom.Node{n, {Id: "b"}}, RootElements: []string{"a"}}
+			}
+			base := mk()
+			if cl := mk(); !base.Equal(cl) || !cl.Equal(base) || base.Checksum() != cl.Checksum() || !ls(base).Equal(ls(cl)) {
+				return engine.Violate("reflexive", "deep", "two identically built nodes with a contact chain of depth %d do not compare equal", d)
+			}
+			for level := 0; level <= d; level++ {
+				for ei, edit := range []func(p *sbom.Person){
+					func(p *sbom.Person) { p.Name += "x" },
+					func(p *sbom.Person) { p.Email = "other@example.com" },
+					func(p *sbom.Person) {
+						if len(p.Contacts) > 0 {
+							p.Contacts = p.Contacts[:len(p.Contacts)-1]
+						} else {
+							p.Contacts = []*sbom.Person{{Name: "added"}}
+						}
+					},
+				} {
+					v := mk()
+					edit(gen.PersonAt(v.Suppliers[0], level))
+					t.Transitions(4)
+					t.Validated(1)
+					if base.Equal(v) || v.Equal(base) {
+						return engine.Violate("discrimination", "", "contact chain of depth %d: edit %d of the person at level %d is not seen by Node.Equal", d, ei, level)
+					}
+					if base.Checksum() == v.Checksum() {
+						return engine.Violate("checksum-agreement", "", "contact chain of depth %d: edit %d of the person at level %d leaves the checksum unchanged", d, ei, level)
+					}
+					if ls(base).Equal(ls(v)) || ls(v).Equal(ls(base)) {
+						return engine.Violate("discrimination", "", "contact chain of depth %d: edit %d of the person at level %d is not seen by NodeList.Equal", d, ei, level)
+					}
+				}
+			}
+			t.State(fmt.Sprint("deep", d))
+			t.Outcome("deep-ok")
+			return nil
+		})
+	}
 }
